@@ -107,7 +107,21 @@ def run_case(a, check):
     seed_all(a["seed"])
     A = build_operator(a["kind"], N, a["rA"], dt)
     b = rand_tt(torchtt, N, a["rb"], dt)
-    if a["x0"] is None:
+    if a.get("rhs") == "alt":
+        # round 4: rank-one right-hand side whose last mode alternates in sign (zero projection on the all-ones default guess)
+        cores = [torch.rand(1, n, 1, dtype=dt) + 0.5 for n in N]
+        cores[-1] = torch.tensor([(-1.0) ** i for i in range(N[-1])], dtype=dt).reshape(1, -1, 1)
+        b = torchtt.TT(cores)
+    if a["x0"] == "disjoint":
+        # round 4: b vanishes on the slice i_d = 0 and the initial guess lives only there
+        bc = [torch.rand(1, n, 1, dtype=dt) + 0.5 for n in N]
+        bc[-1][0, 0, 0] = 0.0
+        b = torchtt.TT(bc)
+        xc = [torch.rand(1, n, 1, dtype=dt) + 0.5 for n in N]
+        xc[-1][:] = 0.0
+        xc[-1][0, 0, 0] = 1.0
+        x0 = torchtt.TT(xc)
+    elif a["x0"] is None:
         x0 = None
     elif a["x0"] == "b":
         x0 = b                      # round 3: the right-hand side object itself is passed as initial guess
@@ -123,11 +137,13 @@ def run_case(a, check):
         check(None, lambda: amen_solve(A, b, a["eps"], x0, a["prec"], a["max_full"], a["local_solver"]))
 
 
-def _mk(kind, N, rA, rb, eps, x0, prec, max_full, local_solver, seed, twice=False):
+def _mk(kind, N, rA, rb, eps, x0, prec, max_full, local_solver, seed, twice=False, rhs=None):
     a = {"op": "amen_solve", "kind": kind, "N": list(N), "rA": rA, "rb": rb, "eps": eps, "x0": x0, "prec": prec,
          "max_full": max_full, "local_solver": local_solver, "seed": seed, "dtype": "float64"}
-    a["id"] = case_id("amen_solve", kind, "N=%s" % str(list(N)).replace(" ", ""), "rA=%d" % rA, "rb=%d" % rb,
-                      "eps=%g" % eps, "x0=%s" % ("none" if x0 is None else ("b" if x0 == "b" else "rank%d" % x0)),
+    if rhs:
+        a["rhs"] = rhs
+    a["id"] = case_id("amen_solve", kind, "N=%s" % str(list(N)).replace(" ", ""), "rA=%d" % rA, "rb=%s" % (rhs or rb),
+                      "eps=%g" % eps, "x0=%s" % ("none" if x0 is None else (x0 if isinstance(x0, str) else "rank%d" % x0)),
                       "prec=%s" % prec, "max_full=%d" % max_full, "ls=%d" % local_solver, "seed=%d" % seed)
     if twice:
         a["twice"] = True
@@ -176,6 +192,18 @@ def enumerate_cases(tier, seed):
                         cases.append(_mk(kind, N, rA, rbs[-1], eps, "b", p, mf, ls, s))
                         cases.append(_mk(kind, N, rA, rbs[-1], eps, "b", p, mf, ls, s, twice=True))
                         cases.append(_mk(kind, N, rA, rbs[-1], eps, 2, p, mf, ls, s, twice=True))
+    # round 4: (a) structured right-hand sides / guesses for which an interface of the projected rhs is EXACTLY zero,
+    # (b) Laplacians with mode sizes 10..12 at eps=1e-10 without preconditioner: the local problems need more than one GMRES cycle
+    r4_shapes = [[6, 5, 4], [8, 8]] if quick else [[6, 5, 4], [8, 8], [4, 4, 4, 4], [5, 4, 3]]
+    for kind, rA in (("lap", 0), ("dd", 3)):
+        for N in r4_shapes:
+            for mf in (500, 0):
+                cases.append(_mk(kind, N, rA, 1, 1e-8, None, None, mf, 1, seeds[0], rhs="alt"))
+                cases.append(_mk(kind, N, rA, 1, 1e-6, "disjoint", None, mf, 1, seeds[0]))
+    for N in ([[12, 12], [10, 11, 12]] if quick else [[12, 12], [10, 11, 12], [12, 12, 12]]):
+        for ls in (1, 2):
+            for s in range(3 if quick else 6):          # whether a local solve needs a restart depends on the data
+                cases.append(_mk("lap", N, 0, 2, 1e-10, None, None, 0, ls, seeds[0] + 10 + s))
     return cases
 
 
@@ -192,7 +220,10 @@ def bound(tier, seed):
                 "guess_unchanged: x0, A and b are bit-for-bit what they were before the call (number of cores, core shapes, R/N, "
                 "entries). ROUND-3 FAMILY: for the first 4 shapes, every operator kind and eps, (prec,max_full,local_solver) in "
                 "{(None,500,1),(None,0,1),('c',0,2),('r',0,1)}: x0 = b (the very same object), x0 = b solved twice, and one random "
-                "rank-2 x0 object re-used for two consecutive solves (each solve is one contract evaluation)." % seed)
+                "rank-2 x0 object re-used for two consecutive solves (each solve is one contract evaluation). ROUND-4 FAMILY: lap and dd(rank 3) on "
+                "[6,5,4] and [8,8] with a rank-one rhs whose last mode alternates in sign (eps 1e-8) and with rhs / initial guess of disjoint "
+                "support (eps 1e-6), max_full in {0,500}; lap [12,12] and [10,11,12] at eps=1e-10, max_full=0, no preconditioner, both iterative "
+                "local solvers, 3 seeds (local problems need several GMRES cycles)." % seed)
     return ("C12 thorough: shapes of order 2..5 with mode sizes 2..12 (10 shapes), operators spd(rank-1 B), dd (rank 1 and 3 B), "
             "lap; rhs ranks {1,4}; eps in {1e-3,1e-6,1e-10}; x0 in {None, random rank 1, rank 3}; all 12 combinations of "
             "preconditioner x max_full x local_solver; seeds {%d,1,2}. Same contract as quick (incl. guess_unchanged and the "
